@@ -25,6 +25,9 @@ Definition op_of (v : val) : option pop :=
       else if String.eqb name "split_terminator" then Some (OSplitTerminator (as_bytes a))
       else if String.eqb name "rsplit_terminator" then Some (ORSplitTerminator (as_bytes a))
       else if String.eqb name "split_keep" then Some (OSplitKeep (as_bytes a))
+      else if String.eqb name "parse_int" then
+        Some (OParseInt (as_Z a) (match rest with _ :: b :: _ => as_bool b | _ => false end))
+      else if String.eqb name "parse_bool" then Some OParseBool
       else None
   | _ => None
   end.
